@@ -617,11 +617,50 @@ def mon_c03(net, obs, opts):
 # C10 thermal laws / C11 heat duties
 # ------------------------------------------------------------------------------------------------
 
+def thermal_region(net, zero=1e-10):
+    """Nodes that take part in the thermal calculation: reachable from a temperature-fixing feeder (t / pt ext grid in service,
+    flow junction of an in-service circulation pump) over branches that carry flow.  A part of the network that is fed by
+    pressure-only grids has no temperature source: it is calculated hydraulically but not thermally."""
+    start = set()
+    if has(net, "ext_grid"):
+        E = net.ext_grid
+        for idx in E.index:
+            if bool(E.at[idx, "in_service"]) and "t" in str(E.at[idx, "type"]):
+                start.add(("j", int(E.at[idx, "junction"])))
+    for t in ("circ_pump_mass", "circ_pump_pressure"):
+        if has(net, t):
+            for idx in net[t].index:
+                if bool(net[t].at[idx, "in_service"]):
+                    start.add(("j", int(net[t].at[idx, "flow_junction"])))
+    adj = {}
+    for t, idx, fk, tk in incidence(net):
+        r = net.get("res_" + t)
+        if r is None or idx not in r.index or "mdot_from_kg_per_s" not in r.columns:
+            continue
+        m = float(r.at[idx, "mdot_from_kg_per_s"])
+        if math.isnan(m) or abs(m) <= zero:
+            continue
+        adj.setdefault(fk, []).append(tk)
+        adj.setdefault(tk, []).append(fk)
+    seen, todo = set(start), list(start)
+    while todo:
+        x = todo.pop()
+        for y in adj.get(x, []):
+            if y not in seen:
+                seen.add(y)
+                todo.append(y)
+    return seen
+
+
 def thermal_streams(net, zero=1e-9):
     """Per branch element with flow: dict(table, idx, up, down, m, tin, tout) using only result tables;
-    the upstream end is chosen by the sign of the reported flow."""
+    the upstream end is chosen by the sign of the reported flow.  Branches outside the thermal calculation
+    (see thermal_region) are left out."""
     out = []
+    region = thermal_region(net)
     for t, idx, fk, tk in incidence(net):
+        if fk not in region or tk not in region:
+            continue
         r = net.get("res_" + t)
         if r is None or idx not in r.index or "t_outlet_k" not in r.columns:
             continue
